@@ -231,6 +231,10 @@ func genBook(r *rand.Rand) string {
 
 func genPaths(r *rand.Rand, book string, min int) []string {
 	n := min + r.Intn(21-min)
+	if r.Intn(25) == 0 {
+		// sizes around the round numbers at which an implementation might batch
+		n = []int{99, 100, 101, 128, 150, 200, 201, 257, 513}[r.Intn(9)]
+	}
 	switch r.Intn(4) {
 	case 0:
 		n = min + r.Intn(3-min+1)
